@@ -34,6 +34,11 @@ func envBytes(payload []byte, name string, system bool, sa, sp, ra, rp string) [
 	return out
 }
 
+// reportNoRecovery reports "no message gets through although the peer is reachable"
+func (h *H) reportNoRecovery(B *Node, c lib.T, detail string) {
+	h.o.Monitor("c14-no-recovery", c, detail)
+}
+
 // healthy makes sure a live connection from -> to exists and returns it
 func (h *H) healthy(from, to *Node) *PConn {
 	if h.abort {
@@ -46,12 +51,15 @@ func (h *H) healthy(from, to *Node) *PConn {
 		s := syncSeq
 		from.Sys.Tell(RemoteRecv(to), &XMsg{Kind: KSync, Seq: s})
 		if waitUntil(2*time.Second, func() bool { return hasSync(to, s) }) {
+			// the sync's own Sent event must be on record before the next call() opens its event window (on a loaded
+			// machine the observer actor may lag behind the round trip): otherwise that call would count a stray "ok"
+			from.Barrier()
 			return to.Proxy.Conns(0)[to.Proxy.NConns()-1]
 		}
 	}
 	if !h.resync(from, to, func(int) Plan { return defaultPlan() }) {
 		if !h.abort {
-			h.o.Monitor("c14-no-recovery", nil, "no message got through a fresh connection within 15 s although the peer is reachable; remaining scenarios skipped")
+			h.reportNoRecovery(to, nil, "no message got through a fresh connection within 15 s although the peer is reachable; remaining scenarios skipped")
 		}
 		h.abort = true
 		return nil
@@ -132,6 +140,10 @@ func (h *H) tellBlocking() {
 		res[fmt.Sprintf("limit_%d", limit)] = map[string]any{"tell_ms": d.Seconds() * 1000, "actor_next_message_delay_ms": actorStall.Seconds() * 1000,
 			"caller_goroutine_in_backoff_sleep": inSleep, "expected_sleep_sum_ms": 100 * ((1 << limit) - 1)}
 		h.logf("tell-blocking limit=%d: Tell took %v, actor stalled %v, caller in backoff sleep: %v", limit, d, actorStall, inSleep)
+		if d < 30*time.Second {
+			// the call slept for the attempts 0 .. limit-1: at least the sum of the lower ends of their jitter intervals (Backoff.v)
+			h.o.Case("backoff-enqueue-time", limit > 0, lib.L(lib.N(9), mailboxCfg.term(), lib.NI(limit), lib.N(uint64(d))), lib.Bool(true))
+		}
 		if limit > 0 && inSleep {
 			// structural observation (not a timing threshold): the goroutine that called Tell is parked in time.Sleep inside backoff.Try under Mailbox.Enqueue
 			min := time.Duration(75*((1<<limit)-1)) * time.Millisecond
@@ -252,6 +264,7 @@ type callObs struct {
 	ok     bool
 	dead   bool
 	dials  int
+	c0, c1 int // indices of the proxy connections made during this call: [c0, c1)
 	dur    time.Duration
 	size   int // MessageSize of the Sent event (frame length), 0 if none
 }
@@ -298,7 +311,8 @@ func (h *H) call(A, B *Node, m *XMsg) callObs {
 			co.retry = append(co.retry, n)
 		}
 	}
-	co.dials = len(co.retry) + B.Proxy.NConns() - c0
+	co.c0, co.c1 = c0, B.Proxy.NConns()
+	co.dials = len(co.retry) + co.c1 - c0
 	if !done {
 		h.o.Monitor("c14-no-report", lib.L(lib.S("call"), lib.N(uint64(m.Sender)), lib.N(m.Seq)),
 			fmt.Sprintf("Tell(sender %d seq %d) returned after %v; within 10 s neither a RemotingMessageSentEvent nor a DeathLetterEvent for it (events: %v)", m.Sender, m.Seq, co.dur, co.events))
@@ -367,6 +381,7 @@ type scenario struct {
 	override map[int][]lib.T // per call: answers built by the scenario itself
 	frameLen func(m *XMsg) int
 	wholeOld bool // the first connection is presented to the model from its handshake on
+	refs     []lib.T // what actor.NewRef answered for the reference strings of injected envelopes (badrefs.go)
 }
 
 func (h *H) begin(name string, A, B *Node, first *PConn, capBytes int64) *scenario {
@@ -449,7 +464,58 @@ func (sc *scenario) finish(h *H, nontrivial bool) {
 		lens = append(lens, lib.NI(n))
 		total += n
 	}
+	// A connection that carries nothing but the zero-length close marker is an attempt whose REGISTRATION with the
+	// dialling system's own server actor failed after dial and handshake (Mailbox.getOrCreateConnection: Ask(remotingServerRef)
+	// failed -> tcpConn.Close() -> connection-failed event): Link.v's CRegisterFail, which like CRefused leaves no
+	// connection behind. It is projected out here (its connection-failed event stays). Seen when the name
+	// dial-<remote>-<local ip:port> is still owned by the reader actor of an earlier connection from the same local port
+	// (before /repo c1a2e19: for ever after a FIN; since then only in the window of finding C14-accept-name-window; on the
+	// dialling side it only costs one attempt).
+	closeOnly := map[int]bool{}
 	for _, c := range B.Proxy.Conns(sc.conn0) {
+		rec, _ := c.Record()
+		c.mu.Lock()
+		inj := c.Injected
+		c.mu.Unlock()
+		if inj == 0 && len(rec) == 4 && rec[0]|rec[1]|rec[2]|rec[3] == 0 {
+			closeOnly[c.Idx] = true
+		}
+	}
+	if len(closeOnly) > 0 {
+		attributed := 0
+		for i := range sc.calls {
+			co := &sc.calls[i]
+			for idx := co.c0; idx < co.c1; idx++ {
+				if closeOnly[idx] && len(co.retry) > 0 {
+					co.dials--
+					attributed++
+				}
+			}
+		}
+		if attributed != len(closeOnly) {
+			// a close-only connection that no call with a connection-failed event accounts for: leave everything as observed
+			closeOnly = map[int]bool{}
+			for i := range sc.calls {
+				co := &sc.calls[i]
+				co.dials = len(co.retry) + co.c1 - co.c0
+			}
+		} else {
+			h.o.Stats["register-failed-connections-projected-out"] += attributed
+			n := 0
+			A.Ev.mu.Lock()
+			for _, l := range A.Ev.Logged {
+				if strings.Contains(l, "actor already exists: /@remoting/dial-") {
+					n++
+				}
+			}
+			A.Ev.mu.Unlock()
+			h.o.Info["dial_name_collisions_logged_"+A.Name] = n
+		}
+	}
+	for _, c := range B.Proxy.Conns(sc.conn0) {
+		if closeOnly[c.Idx] {
+			continue
+		}
 		t, n := connInput(c, true, 0)
 		conns = append(conns, t)
 		total += n
@@ -474,6 +540,9 @@ func (sc *scenario) finish(h *H, nontrivial bool) {
 		}
 	}
 	in := lib.L(lib.N(1), lib.NI(A.Limit), first, lib.LS(calls), lib.LS(conns))
+	if len(sc.refs) > 0 {
+		in = lib.L(lib.N(1), lib.NI(A.Limit), first, lib.LS(calls), lib.LS(conns), lib.LS(sc.refs))
+	}
 	var outs []lib.T
 	for _, c := range sc.calls {
 		var rc []lib.T
@@ -558,7 +627,7 @@ func (h *H) cutAt(A, B *Node, k int64, frameLen func(*XMsg) int, sizes []int) {
 	nfull := len(splitFrames(rec[sc.start:]))
 	waitUntil(10*time.Second, func() bool { return B.Rec.Len()-sc.m.rec >= nfull })
 	if !sc.flush(h, 12) && !h.abort {
-		h.o.Monitor("c14-no-recovery", lib.L(lib.S("cut"), lib.N(uint64(k))), fmt.Sprintf("%s: after the cut none of 12 further Tells (40 ms apart) was delivered although the peer is reachable", sc.name))
+		h.reportNoRecovery(B, lib.L(lib.S("cut"), lib.N(uint64(k))), fmt.Sprintf("%s: after the cut none of 12 further Tells (40 ms apart) was delivered although the peer is reachable", sc.name))
 		h.noRecovery++
 		if h.noRecovery >= 3 {
 			h.abort = true // every further scenario would only wait again
@@ -607,7 +676,7 @@ func (h *H) refused(A, B *Node, frameLen func(*XMsg) int) {
 		panic(err)
 	}
 	if !sc.flush(h, 12) && !h.abort {
-		h.o.Monitor("c14-no-recovery", lib.L(lib.S(sc.name)), sc.name+": the peer accepts connections again but none of 12 further Tells was delivered")
+		h.reportNoRecovery(B, lib.L(lib.S(sc.name)), sc.name+": the peer accepts connections again but none of 12 further Tells was delivered")
 		h.noRecovery++
 		if h.noRecovery >= 3 {
 			h.abort = true // every further scenario would only wait again
@@ -699,7 +768,7 @@ func (h *H) rejected(A, B *Node, frameLen func(*XMsg) int, hsCut int) {
 	}
 	bad = false
 	if !sc.flush(h, 12) && !h.abort {
-		h.o.Monitor("c14-no-recovery", lib.L(lib.S(sc.name)), sc.name+": handshakes pass again but none of 12 further Tells was delivered")
+		h.reportNoRecovery(B, lib.L(lib.S(sc.name)), sc.name+": handshakes pass again but none of 12 further Tells was delivered")
 		h.noRecovery++
 		if h.noRecovery >= 3 {
 			h.abort = true // every further scenario would only wait again
@@ -873,7 +942,7 @@ func (h *H) restart(A, B *Node) *Node {
 	h.o.Info[fmt.Sprintf("peer_restart_limit%d", A.Limit)] = trace
 	h.o.Stats["restart-runs"]++
 	if delivered < 0 {
-		h.o.Monitor("c14-no-recovery", lib.L(lib.S("peer-restart"), lib.NI(A.Limit)), fmt.Sprintf("peer restarted behind the same address; 25 Tells 30 ms apart: %v", trace))
+		h.reportNoRecovery(B2, lib.L(lib.S("peer-restart"), lib.NI(A.Limit)), fmt.Sprintf("peer restarted behind the same address; 25 Tells 30 ms apart: %v", trace))
 	}
 	return B2
 }
@@ -884,6 +953,50 @@ func (h *H) runLink() {
 		h.twoPeers()
 		return
 	}
+	// the back-off object alone, before any system runs (nothing else may draw from the global random source)
+	h.backoffDiff()
+	if os.Getenv("XV_ONLY") == "backoff" {
+		return
+	}
+	if os.Getenv("XV_ONLY") == "collision" {
+		// debugging aid: the same-peer-port scenarios alone
+		for _, v := range []string{"fin", "rst", "backlog"} {
+			h.acceptCollisionReport(h.acceptCollisionRun(v))
+		}
+		return
+	}
+	// a peer that finds its port taken (runs beside the other scenarios: its time is waiting)
+	acceptCh := make(chan acceptResult, 1)
+	go func() {
+		fails := 3
+		if h.tier == "thorough" {
+			fails = 6
+		}
+		acceptCh <- h.acceptBackoffRun(fails)
+	}()
+	defer func() {
+		select {
+		case r := <-acceptCh:
+			h.acceptBackoffReport(r)
+		case <-time.After(120 * time.Second):
+			h.o.Stats["accept-backoff-timeout"]++
+		}
+	}()
+	// the path to a peer re-established from the same peer address after a FIN / after a RST (beside the other scenarios)
+	collCh := make(chan [3]collisionResult, 1)
+	go func() {
+		collCh <- [3]collisionResult{h.acceptCollisionRun("fin"), h.acceptCollisionRun("rst"), h.acceptCollisionRun("backlog")}
+	}()
+	defer func() {
+		select {
+		case r := <-collCh:
+			for _, x := range r {
+				h.acceptCollisionReport(x)
+			}
+		case <-time.After(120 * time.Second):
+			h.o.Stats["accept-collision-timeout"]++
+		}
+	}()
 	type pair struct{ A, B *Node }
 	var pairs []pair
 	limits := []int{0, 2}
@@ -923,6 +1036,9 @@ func (h *H) runLink() {
 				return
 			}
 			co := h.call(A, B, &XMsg{Kind: KSync, Seq: 1 << 50})
+			if pi == 0 {
+				h.backoffLive(A, B)
+			}
 			ovh := co.size
 			frameLen := func(m *XMsg) int { return ovh + len(m.Data) }
 			sizes := []int{0, 5, 40}
@@ -958,8 +1074,11 @@ func (h *H) runLink() {
 			for _, j := range []int{0, 1, 4, 10} {
 				h.rejected(A, B, frameLen, j)
 			}
+			h.mailboxAtRest(A, B.Adv, fmt.Sprintf("after refused/rejected scenarios, limit %d", A.Limit))
 			h.unencodable(A, B, frameLen)
+			h.mailboxAtRest(A, B.Adv, fmt.Sprintf("after unencodable scenarios, limit %d", A.Limit))
 			h.garbage(A, B, frameLen)
+			h.badRefs(A, B, frameLen)
 			if A.Limit == 0 {
 				h.overlap(A, B)
 			}
